@@ -189,7 +189,7 @@ impl Prop for C08 {
         600
     }
     fn cases(&self, tier: Tier) -> u32 {
-        tier.pick(8_000, 200_000)
+        tier.pick(60_000, 1_000_000)
     }
     fn decode(&self, choices: &[u32], tier: Tier) -> Value {
         let c = decode_case(choices, tier, &opts(tier), 10, &[5, 4, 1]);
